@@ -5,7 +5,8 @@ from ..ir import AnalysisBroken, strip_targs, qmatch
 from ..graph import Graph
 from ..expr import access_path, path_str, reaching_defs, norm_cond, origins, leaves, defs_in_node
 from ..callgraph import CallGraph
-from .common import strip_casts, short, comparison, FLIP
+from ..symb import explore_pinned
+from .common import strip_casts, short, comparison, FLIP, subtree_through_locals, once_init, same_class_inline
 
 UNITS = ['sdk/src/trace/samplers/trace_id_ratio.cc', 'sdk/src/trace/samplers/parent.cc', 'sdk/src/trace/tracer.cc']
 DRIVERS = ['trace_headers.cc']
@@ -143,39 +144,47 @@ def rule_r2(ck, prog, cg, f_should, rule='C12.R2'):
     samp = [r for r in rets if _decision_of(f, r.n['e']) == 'RECORD_AND_SAMPLE']
     drop = [r for r in rets if _decision_of(f, r.n['e']) == 'DROP']
 
-    def le_edge(want):
-        def pred(a, b, lab):
-            if not lab or not isinstance(lab[0], int):
-                return False
-            core, pol = norm_cond(lab[1], lab[0])
-            c = comparison(lab[1], core)
+    # decision table over Z = "threshold_ == 0" and L = "f(trace id) <= threshold_": the comparisons are pinned per scenario
+    # (a strict or reversed comparison cannot be decided from L and stays open, which makes the wrong decision reachable);
+    # named booleans, conjunctions and early returns are folded by the path explorer
+    def scen_pins(z, l):
+        pins = {}
+        for n in f.nodes:
+            c = comparison(f, n['i'])
             if not c:
-                return False
-            op, l, r = c
-            ln, rn = strip_casts(f, l), strip_casts(f, r)
-            if ln['k'] == 'member':
-                op, ln, rn = FLIP[op], rn, ln
-            if not (ln['k'] == 'call' and strip_targs(ln.get('c', '')).endswith('CalculateThresholdFromBuffer') and rn['k'] == 'member'):
-                return False
-            if op != '<=':
-                return False
-            return (lab[2] if pol else not lab[2]) is want
-        return pred
-    ok = len(samp) == 1 and g2.must_pass_edge(samp[0], le_edge(True))
+                if n['k'] == 'member' and n.get('name', '').startswith('threshold'):
+                    pins[n['i']] = not z      # `if (threshold_)`
+                continue
+            op, a, b = c
+            an, bn = strip_casts(f, a), strip_casts(f, b)
+            has_call = lambda i_: any(f.nodes[k]['k'] == 'call' and strip_targs(f.nodes[k].get('c', '')).endswith('CalculateThresholdFromBuffer') for k in subtree_through_locals(f, i_))
+            if bn['k'] == 'member' and an['k'] == 'lit':
+                op, a, b, an, bn = FLIP[op], b, a, bn, an
+            if an['k'] == 'member' and bn['k'] == 'lit' and bn.get('v') == 0:
+                v = {'==': z, '!=': not z, '>': not z, '<=': z, '>=': True, '<': False}.get(op)
+                if v is not None:
+                    pins[n['i']] = v
+                continue
+            if an['k'] == 'member' and has_call(b):
+                op, a, b = FLIP[op], b, a
+            elif not (has_call(a) and strip_casts(f, b)['k'] == 'member'):
+                continue
+            v = {'<=': l, '>': not l}.get(op)
+            if v is not None:
+                pins[n['i']] = v
+        return pins
+    table = {}
+    for z in (True, False):
+        for l in (True, False):
+            rets_, _seen = explore_pinned(g2, scen_pins(z, l))
+            table[(z, l)] = {_decision_of(f, f.nodes[ri]['e']) if ri is not None else '?' for (ri, _v, _e) in rets_}
+    ok = table[(False, True)] == {'RECORD_AND_SAMPLE'}
     ck.verdict(ok, rule, f, 'sample-iff-id<=threshold', samp[0].n if samp else None,
-               'RECORD_AND_SAMPLE exactly behind f(trace id) <= threshold' if ok else 'sampling is not decided by f(trace id) <= threshold (strict comparison or reversed operands change which traces are kept)')
-    def zero_edge(a, b, lab):
-        if not lab or not isinstance(lab[0], int):
-            return False
-        core, pol = norm_cond(lab[1], lab[0])
-        c = comparison(lab[1], core)
-        if c and c[0] == '==' and strip_casts(f, c[2]).get('v') == 0 and strip_casts(f, c[1])['k'] == 'member':
-            return (lab[2] if pol else not lab[2]) is True
-        return False
-    ok = bool(drop) and all(g2.must_pass_edge(r, zero_edge) or g2.must_pass_edge(r, le_edge(False)) for r in drop) and \
-        any(g2.must_pass_edge(r, zero_edge) for r in drop)
+               'RECORD_AND_SAMPLE exactly for threshold != 0 and f(trace id) <= threshold' if ok else 'sampling is not decided by f(trace id) <= threshold (strict comparison or reversed operands change which traces are kept): with a non-zero threshold and id <= threshold the decisions are %s' % sorted(table[(False, True)]))
+    ok = table[(True, True)] == {'DROP'} and table[(True, False)] == {'DROP'} and table[(False, False)] == {'DROP'}
     ck.verdict(ok, rule, f, 'drop-on-zero-threshold-or-above', drop[0].n if drop else None,
-               'DROP behind threshold == 0 or id above threshold' if ok else 'DROP is not exactly the zero-threshold / above-threshold case (ratio 0 could sample the all-zero-prefix ids)')
+               'DROP exactly for threshold == 0 or id above threshold' if ok else 'DROP is not exactly the zero-threshold / above-threshold case (ratio 0 could sample the all-zero-prefix ids): %s' %
+               ', '.join('%s/%s -> %s' % ('zero' if z else 'nonzero', 'id<=thr' if l else 'id>thr', '|'.join(sorted(v))) for (z, l), v in sorted(table.items())))
     # same mapping on both sides
     cb = prog.function('CalculateThresholdFromBuffer')
     ok = ct.key in cg.calls.get(cb.key, ()) and cb.key in cg.calls.get(f.key, ())
@@ -286,7 +295,7 @@ def rule_r2b(ck, prog, ct, rule='C12.R2b'):
             continue
         l, r = ct.nodes[n['lhs']], ct.nodes[n['rhs']]
         for hi_side, lo_side in ((n['lhs'], n['rhs']), (n['rhs'], n['lhs'])):
-            hs = strip_casts(ct, hi_side)
+            hs = once_init(ct, hi_side)   # (the shifted high part may be held in a named local)
             if hs['k'] == 'binop' and hs['op'] == '<<' and 'v' in ct.nodes[hs['rhs']]:
                 found += 1
                 k = ct.nodes[hs['rhs']]['v']
@@ -309,7 +318,7 @@ def rule_r2b(ck, prog, ct, rule='C12.R2b'):
 def rule_r3(ck, prog, rule='C12.R3', cls='sdk::trace::ParentBasedSampler'):
     rec = prog.record(cls)
     f = [x for x in prog.funcs.values() if x.cls == rec['qn'] and x.name == 'ShouldSample'][0]
-    g = Graph(prog, f, inline=None, sync_lambdas=False)
+    g = Graph(prog, f, inline=same_class_inline(prog, rec['qn']), sync_lambdas=False)
     pid = f.params[0]['id']
 
     def pred_edge(method, want):
@@ -342,26 +351,44 @@ def rule_r3(ck, prog, rule='C12.R3', cls='sdk::trace::ParentBasedSampler'):
     # walked (conditional constant propagation); the decision of each reachable return is read off its first initialiser
     from ..symb import explore_pinned, eval3 as _e3, T, F
 
-    def is_pred(n, method):
+    from ..symb import helper_result, local_pins, feasible_reach
+    from .common import deparam
+
+    def is_pred(ff, n, ctx, method):
         if n['k'] != 'call' or n.get('obj') is None:
             return False
         c = strip_targs(n.get('c', ''))
-        on = strip_casts(f, n['obj'])
-        direct = c.endswith('SpanContext::' + method) and on.get('id') == pid
-        via_flags = method == 'IsSampled' and c.endswith('TraceFlags::IsSampled') and on['k'] == 'call' and \
-            strip_targs(on.get('c', '')).endswith('SpanContext::trace_flags') and strip_casts(f, on['obj']).get('id') == pid
-        return direct or via_flags
-    valid_nodes = [n['i'] for n in f.nodes if is_pred(n, 'IsValid')]
-    sampled_nodes = [n['i'] for n in f.nodes if is_pred(n, 'IsSampled')]
 
-    def decision_under(e, env, pins, depth=3):
+        def is_parent(idx):
+            rf, ri, rc = deparam(ff, idx, ctx)
+            return rf is f and strip_casts(rf, ri).get('id') == pid
+        on = strip_casts(ff, n['obj'])
+        direct = c.endswith('SpanContext::' + method) and is_parent(n['obj'])
+        via_flags = method == 'IsSampled' and c.endswith('TraceFlags::IsSampled') and on['k'] == 'call' and \
+            strip_targs(on.get('c', '')).endswith('SpanContext::trace_flags') and is_parent(on['obj'])
+        return direct or via_flags
+    valid_nodes = [(id(c.f), n['i']) for c in g.ctxs for n in c.f.nodes if is_pred(c.f, n, c, 'IsValid')]
+    sampled_nodes = [(id(c.f), n['i']) for c in g.ctxs for n in c.f.nodes if is_pred(c.f, n, c, 'IsSampled')]
+
+    def resolve(ff, e, ctx, env):
+        """follow the returned expression into the private / file-local helper that produced it"""
+        for _ in range(4):
+            hr = helper_result(g, ff, e, ctx, env)
+            if hr is None:
+                break
+            ff, e, ctx = hr
+        return ff, e, ctx
+
+    def decision_under(ff, ctx, e, env, pins, depth=3):
         """set of Decision enumerators the first initialiser of the returned result can be"""
+        lp = local_pins(g, ctx, ff, env, pins)
+
         def val(idx, depth):
-            n = strip_casts(f, idx)
+            n = strip_casts(ff, idx)
             if n['k'] == 'ref' and n.get('sk') == 'enum':
                 return {n['qn'].rsplit('::', 1)[-1]}
             if n['k'] == 'cond':
-                c = _e3(f, n['cnd'], env, pins)
+                c = _e3(ff, n['cnd'], env, lp)
                 if c is True:
                     return val(n['a'], depth)
                 if c is False:
@@ -369,48 +396,54 @@ def rule_r3(ck, prog, rule='C12.R3', cls='sdk::trace::ParentBasedSampler'):
                 return val(n['a'], depth) | val(n['b'], depth)
             if n['k'] == 'ref' and n.get('sk') == 'local' and depth > 0:
                 out = set()
-                for m in f.nodes:
+                for m in ff.nodes:
                     if m['k'] == 'declstmt':
                         for d in m['decls']:
                             if d['id'] == n['id'] and d.get('init') is not None and d['init'] >= 0:
                                 out |= val(d['init'], depth - 1)
-                others = [m for m in f.nodes for (v, st, vx) in defs_in_node(f, m) if v == n['id'] and m['k'] != 'declstmt']
+                others = [m for m in ff.nodes for (v, st, vx) in defs_in_node(ff, m) if v == n['id'] and m['k'] != 'declstmt']
                 return out if out and not others else {'?'}
             return {'?'}
-        en = strip_casts(f, e)
+        en = strip_casts(ff, e)
         first = None
         if en['k'] in ('construct', 'initlist', 'InitListExpr') and (en.get('args') or en.get('ch')):
             first = (en.get('args') or en.get('ch'))[0]
         if first is None:
-            for k in f.subtree(e):
-                if 'Decision' in (f.nodes[k].get('t') or '') and f.nodes[k]['k'] in ('ref', 'cond'):
+            for k in ff.subtree(e):
+                if 'Decision' in (ff.nodes[k].get('t') or '') and ff.nodes[k]['k'] in ('ref', 'cond'):
                     first = k
                     break
         return val(first, depth) if first is not None else {'?'}
 
-    def carries_parent_state(e):
-        return any(f.nodes[k]['k'] == 'call' and strip_targs(f.nodes[k].get('c', '')).endswith('SpanContext::trace_state') and
-                   strip_casts(f, f.nodes[k]['obj']).get('id') == pid for k in f.subtree(e))
+    def carries_parent_state(ff, ctx, e):
+        for k in ff.subtree(e):
+            m = ff.nodes[k]
+            if m['k'] == 'call' and strip_targs(m.get('c', '')).endswith('SpanContext::trace_state') and m.get('obj') is not None:
+                rf, ri, rc = deparam(ff, m['obj'], ctx)
+                if rf is f and strip_casts(rf, ri).get('id') == pid:
+                    return True
+        return False
     table = {}
     delegate_run = {}
     for valid in (T, F):
         for sampled in (T, F):
             pins = {k: valid for k in valid_nodes}
             pins.update({k: sampled for k in sampled_nodes})
-            rets_, seen = explore_pinned(g, pins, probes=[d.n['i'] for d in dele])
+            rets_, seen = explore_pinned(g, pins)
             outs = set()
             for (ri, _v, env) in rets_:
                 if ri is None:
                     outs.add(('?', False))
                     continue
-                e = f.nodes[ri]['e']
-                if any(f.nodes[k] is d.n for d in dele for k in f.subtree(e)):
+                env = dict(env)
+                ff, e, ctx = resolve(f, f.nodes[ri]['e'], g.root_ctx, env)
+                if any(d.f is ff and ff.nodes[k] is d.n for d in dele for k in ff.subtree(e)):
                     outs.add(('DELEGATE', True))
                 else:
-                    for dec in decision_under(e, dict(env), pins):
-                        outs.add((dec, carries_parent_state(e)))
+                    for dec in decision_under(ff, ctx, e, env, pins):
+                        outs.add((dec, carries_parent_state(ff, ctx, e)))
             table[(valid, sampled)] = outs
-            delegate_run[(valid, sampled)] = bool(seen)
+            delegate_run[(valid, sampled)] = bool(dele) and feasible_reach(g, [g.entry], dele, pins=pins) is not None
     have_preds = bool(valid_nodes) and bool(sampled_nodes)
     ok = len(dele) == 1 and have_preds and delegate_run[(F, T)] and delegate_run[(F, F)] and not delegate_run[(T, T)] and not delegate_run[(T, F)]
     ck.verdict(ok, rule, f, 'delegate-only-without-valid-parent', dele[0].n if dele else None,
